@@ -142,7 +142,11 @@ class C13(Prop):
                    'a KeyboardInterrupt delivered to the thread calling run() is modelled as an exception at a queue.get()',
                    'sub-suites are hashable, distinct TestCase-like objects; a run() that raises raises an Exception subclass (a BaseException is deliberately not turned into broken-runner by the code)',
                    'the number of chunks of a broken-runner traceback is measured on the implementation and given to the model (stream flavour)',
-                   'per-worker results are the default ones (no wrap_result)']
+                   'per-worker results are the default ones (no wrap_result)',
+                   'translator ties (harness/suiteskel.py + harness/tfrskel.py): the try / except Exception / finally structure of both _run_test methods and the '
+                   'skeletons of ThreadsafeForwardingResult are re-read from the source on every run (theorems C13_src_run_test_suite / _stream, C12_src_*); trusted: '
+                   'the interpreters\' reading of sequencing / try-except / try-finally and that each recognised statement is what its name says; run() itself (the '
+                   'for / while loops of the calling thread) is not translated - its tie is the correspondence check']
 
     manifest = {
         'text': 'Theorems for every number of workers, worker programs (0.. tests of any outcome, run() raising), fault plans (worker-side faults of the caller\'s '
@@ -161,6 +165,12 @@ class C13(Prop):
         'technique': 'Lean 4 invariant proofs over a small-step interleaving semantics (all schedules, no bound) with a termination measure, executable spec shared with a '
                      'differential correspondence check under a deterministic thread scheduler',
     }
+
+    def extract_tables(self, repo):
+        """translator ties: the worker side of the two suites (_run_test), and - because the suite flavour's workers report through
+        ThreadsafeForwardingResult, whose block semantics C13's theorems reuse - the skeletons of that class as well"""
+        from harness import suiteskel, tfrskel
+        return {'TTV/Generated/SuiteSkel.lean': suiteskel.generate(repo), 'TTV/Generated/TfrSkel.lean': tfrskel.generate(repo)}
 
     def __init__(self):
         self.stats = {}
